@@ -11,8 +11,8 @@ import (
 
 	"verifharness/gen"
 	"verifharness/mc"
-	"verifharness/sched"
 	"verifharness/props/reg"
+	"verifharness/sched"
 )
 
 func init() { reg.Register(&reg.Prop{ID: "C01", Run: Run, Replay: Replay}) }
